@@ -1,7 +1,7 @@
 //@unit C01_hotinv
 //@props C01
 //@safetyprops C10
-//@desc ClipperBase::IntersectEdges for two closed-path edges (loop-free; all 4 clip types x 4 fill rules, all winding numbers, same or different path types, every hot/cold combination, every front/back and shared-contour configuration): the invariant the whole sweep rests on - AN EDGE IS HOT (belongs to an output contour) EXACTLY WHEN THE RESULT REGION DIFFERS ON ITS TWO SIDES - is preserved across a crossing. Four faces meet at the crossing (left, below = between the edges before, right, above = between them afterwards); their subject and clip winding numbers follow from the face on the left and the two winding directions; RESULT(face) = OP(clip type, FILLED(fill rule, subject winding), FILLED(fill rule, clip winding)) is the property's own definition. Given the invariant for both edges below the crossing (and the winding-count representation of C01_contrib), after IntersectEdges it holds for both edges above it. The contour builders are modelled by their effect on hotness only: AddLocalMaxPoly makes both edges cold (JoinOutrecPaths / UncoupleOutRec end that way, C01_ringops), AddLocalMinPoly makes both hot, AddOutPt changes nothing, SwapOutrecs exchanges the contours.
+//@desc ClipperBase::IntersectEdges for two closed-path edges (loop-free; all 4 clip types x 4 fill rules, all winding numbers, same or different path types, every hot/cold combination, every front/back and shared-contour configuration): the invariant the whole sweep rests on - AN EDGE IS HOT (belongs to an output contour) EXACTLY WHEN THE RESULT REGION DIFFERS ON ITS TWO SIDES - is preserved across a crossing. Four faces meet at the crossing (left, below = between the edges before, right, above = between them afterwards); their subject and clip winding numbers follow from the face on the left and the two winding directions; RESULT(face) = OP(clip type, FILLED(fill rule, subject winding), FILLED(fill rule, clip winding)) is the property's own definition. Given the invariant for both edges below the crossing (and the winding-count representation of C01_contrib), after IntersectEdges it holds for both edges above it. The contour builders are modelled by their effect on hotness only: AddLocalMaxPoly makes both edges cold (JoinOutrecPaths / UncoupleOutRec end that way, C01_ringops), AddLocalMinPoly makes both hot, AddOutPt changes nothing, SwapOutrecs exchanges the contours. Second run (C05): an OPEN edge crossing a closed edge toggles between hot and cold exactly when its contribution rule (inside the clip region for Intersection, outside it for Difference and Xor, outside both regions for Union) gives different answers on the two sides of the closed edge, whichever side it comes from and whichever argument it is; the closed edge is left untouched.
 #include "vf.h"
 //@include engine_types.inc
 #define FILLED(fr, w) ((fr) == FillRule_EvenOdd ? (((w) & 1) != 0) : (fr) == FillRule_NonZero ? ((w) != 0) : (fr) == FillRule_Positive ? ((w) > 0) : ((w) < 0))
@@ -13,7 +13,11 @@
 OutRec g_o1, g_o2, g_onew; int g_nlmax, g_nlmin;
 static void Split__p(ClipperBase* self, Active* e, Point64 pt) { __CPROVER_assert(0, "no joined edges in this harness"); }
 static OutPt* AddOutPt__p(ClipperBase* self, const Active* e, Point64 pt) { __CPROVER_assert(e->outrec != NULL, "a vertex is added to a hot edge's contour"); return NULL; }
+#ifdef OPENX
+static OutPt* StartOpenPath__p(ClipperBase* self, Active* e, Point64 pt) { __CPROVER_assert(e->outrec == NULL && e->local_min->is_open, "an open contour starts on a cold open edge"); e->outrec = &g_onew; return NULL; }
+#else
 static OutPt* StartOpenPath__p(ClipperBase* self, Active* e, Point64 pt) { __CPROVER_assert(0, "closed paths"); return NULL; }
+#endif
 static OutPt* AddLocalMaxPoly__p(ClipperBase* self, Active* e1, Active* e2, Point64 pt) { __CPROVER_assert(e1->outrec != NULL && e2->outrec != NULL, "a maximum closes two hot edges"); g_nlmax++; e1->outrec = NULL; e2->outrec = NULL; return NULL; }
 static OutPt* AddLocalMinPoly4(ClipperBase* self, Active* e1, Active* e2, Point64 pt, bool is_new) { __CPROVER_assert(e1->outrec == NULL && e2->outrec == NULL, "a minimum starts on two cold edges"); g_nlmin++; e1->outrec = &g_onew; e2->outrec = &g_onew; g_onew.front_edge = e1; g_onew.back_edge = e2; return NULL; }
 static void SwapOutrecs__p(Active* e1, Active* e2) { OutRec* t = e1->outrec; e1->outrec = e2->outrec; e2->outrec = t; }
@@ -30,7 +34,8 @@ static void SwapOutrecs__p(Active* e1, Active* e2) { OutRec* t = e1->outrec; e1-
 static inline bool Point64_eq(Point64 a, Point64 b) { return a.x == b.x && a.y == b.y; }
 static void SetSides__p(OutRec* o, Active* a, Active* b) { }
 #define SetSides(o, a, b) SetSides__p(&(o), &(a), &(b))
-static Active* FindEdgeWithMatchingLocMin(Active* e) { return NULL; }
+Active g_e3; bool nondet_bool(void);
+static Active* FindEdgeWithMatchingLocMin(Active* e) { return nondet_bool() ? &g_e3 : NULL; }
 //@extract file=CPP/Clipper2Lib/src/clipper.engine.cpp func=IsHotEdge byptr=e refmacro=1
 //@end
 //@extract file=CPP/Clipper2Lib/src/clipper.engine.cpp func=IsOpen sig="const Active& e" byptr=e refmacro=1
@@ -87,5 +92,41 @@ void h_HOT(void)
   __CPROVER_assert((e1.outrec != NULL) == (rT != rR), "above the crossing the edge now on the right is hot exactly when the result differs on its two sides");
   VF_CANARY();
 }
+#ifdef OPENX
+/* an OPEN edge o crosses a CLOSED edge c: o is hot exactly when the face it runs through makes it contribute (C05's rule), before and after */
+#define NEARER0(w) ((w) > 0 ? (w) - 1 : (w) + 1)
+#define CONTRIBO(ct, fr, s, k) ((ct) == ClipType_Intersection ? FILLED(fr, k) : (ct) == ClipType_Union ? (!FILLED(fr, s) && !FILLED(fr, k)) : !FILLED(fr, k))
+void h_HOTO(void)
+{
+  ClipperBase cb; Active o, c, other; LocalMinima lo, lc; Vertex vmin; Point64 pt;
+  cb.cliptype_ = (ClipType)(1 + nondet_uint() % 4); cb.fillrule_ = (FillRule)(nondet_uint() % 4); cb.fillpos = FillRule_Positive; cb.has_open_paths_ = true; cb.succeeded_ = true;
+  __CPROVER_assume(cb.cliptype_ == ClipType_Intersection || cb.cliptype_ == ClipType_Union || cb.cliptype_ == ClipType_Difference || cb.cliptype_ == ClipType_Xor);
+  __CPROVER_assume(cb.fillrule_ == FillRule_EvenOdd || cb.fillrule_ == FillRule_NonZero || cb.fillrule_ == FillRule_Positive || cb.fillrule_ == FillRule_Negative);
+  lo.is_open = true; lo.polytype = PathType_Subject; lo.vertex = &vmin; vmin.flags = nondet_bool() ? VertexFlags_OpenStart : VertexFlags_LocalMin; vmin.pt.x = (int64_t)nondet_int(); vmin.pt.y = (int64_t)nondet_int(); pt.x = (int64_t)nondet_int(); pt.y = (int64_t)nondet_int();
+  lc.is_open = false; lc.polytype = nondet_bool() ? PathType_Subject : PathType_Clip;
+  o.local_min = &lo; c.local_min = &lc; o.join_with = JoinWith_NoJoin; c.join_with = JoinWith_NoJoin; o.wind_dx = nondet_bool() ? 1 : -1; c.wind_dx = nondet_bool() ? 1 : -1;
+  bool eo = cb.fillrule_ == FillRule_EvenOdd;
+  /* the closed edge: own-type windings of its two sides are w (farther from zero, stored) and NEARER0(w); other type k */
+  int w = nondet_int(), k = nondet_int(); __CPROVER_assume(w != 0 && w > -1000 && w < 1000 && k > -1000 && k < 1000);
+  if (eo) __CPROVER_assume((w == 1 || w == -1) && (k == 0 || k == 1));
+  c.wind_cnt = w; c.wind_cnt2 = k;
+  int s_far = lc.polytype == PathType_Subject ? w : k, k_far = lc.polytype == PathType_Subject ? k : w;
+  int s_near = lc.polytype == PathType_Subject ? NEARER0(w) : k, k_near = lc.polytype == PathType_Subject ? k : NEARER0(w);
+  /* the closed edge obeys the closed-path invariant (C01_hotinv, first run) */
+  bool res_far = OP(cb.cliptype_, FILLED(cb.fillrule_, s_far), FILLED(cb.fillrule_, k_far)), res_near = OP(cb.cliptype_, FILLED(cb.fillrule_, s_near), FILLED(cb.fillrule_, k_near));
+  c.outrec = (res_far != res_near) ? &g_o2 : NULL; g_o2.front_edge = &c; g_o2.back_edge = &other;
+  bool con_far = CONTRIBO(cb.cliptype_, cb.fillrule_, s_far, k_far), con_near = CONTRIBO(cb.cliptype_, cb.fillrule_, s_near, k_near);
+  bool from_far = nondet_bool();                                   /* which side the open edge comes from */
+  bool hot0 = from_far ? con_far : con_near;                      /* the invariant before the crossing */
+  o.outrec = hot0 ? &g_o1 : NULL; g_o1.front_edge = nondet_bool() ? &o : &other; g_o1.back_edge = g_o1.front_edge == &o ? &other : &o; g_o1.is_open = true;
+  g_e3.outrec = nondet_bool() ? &g_onew : NULL; g_e3.local_min = &lo;
+  bool first = nondet_bool();                                      /* the open edge may be either argument */
+  if (first) IntersectEdges(&cb, &o, &c, pt); else IntersectEdges(&cb, &c, &o, pt);
+  __CPROVER_assert((o.outrec != NULL) == (from_far ? con_near : con_far), "beyond the crossing the open edge is hot exactly when the face it enters makes it contribute");
+  __CPROVER_assert(c.wind_cnt == w && c.wind_cnt2 == k && (c.outrec != NULL) == (res_far != res_near), "the closed edge is left as it was");
+  VF_CANARY();
+}
+#endif
+//@run name=IntersectEdges.open-crosses-closed entry=h_HOTO defs=OPENX unwind=3 flags="--bounds-check --pointer-check" timeout=600 props=C05,C01,C10
 //@run name=IntersectEdges.hot-invariant entry=h_HOT unwind=3 flags="--bounds-check --pointer-check" timeout=600
 //@assume A5/G4 (C01_hotinv): the contour builders are modelled by their effect on hotness only; the winding-count representation below the crossing is the one of C01_contrib (K2); closed paths, no joined edges, |winding| < 1000.
